@@ -209,3 +209,31 @@ pub fn free<T>(kind: &'static str, p: *const T) {
         note("free", &format!("{} {}", kind, p as usize));
     }
 }
+
+/// value id of a payload for the trace: the payload itself when it is pointer sized, `u64::MAX` otherwise
+#[inline]
+fn slot_val<T>(p: *const T) -> u64 {
+    if std::mem::size_of::<T>() == std::mem::size_of::<u64>() {
+        unsafe { std::ptr::read_unaligned(p as *const u64) }
+    } else {
+        u64::MAX
+    }
+}
+
+/// a non-atomic WRITE of `v` into slot `idx` (payload cell at `cell`) is about to happen: schedule point + event
+/// `swrite idx v`. Call it directly in front of the access, inside the function that performs it.
+#[inline]
+#[track_caller]
+pub fn slot_write<T>(cell: *const T, idx: usize, v: &T) {
+    let site = Location::caller();
+    op(site, cell as usize, "swrite", idx as u64, slot_val(v as *const T), 0, || 0);
+}
+
+/// a non-atomic READ of slot `idx` (payload cell at `cell`) is about to happen: schedule point + event
+/// `sread idx -> value found`. Call it directly in front of the access, inside the function that performs it.
+#[inline]
+#[track_caller]
+pub fn slot_read<T>(cell: *const T, idx: usize) {
+    let site = Location::caller();
+    op(site, cell as usize, "sread", idx as u64, 0, 0, || slot_val(cell));
+}
